@@ -242,8 +242,10 @@ void opParse(const std::string& op, const std::string& text)
         Document doc;
         TraceBuilder tb(doc, std::cout);
         try {
-            if (op == "xml") parse_XML_buffer(text.c_str(), static_cast<ParserBuilder*>(&tb), true);
-            else parse_XTA(text.c_str(), static_cast<ParserBuilder*>(&tb), true);
+            // xml0 / xta0: the 3.x syntax (newxta = false)
+            const bool nx = op != "xml0" && op != "xta0";
+            if (op == "xml" || op == "xml0") parse_XML_buffer(text.c_str(), static_cast<ParserBuilder*>(&tb), nx);
+            else parse_XTA(text.c_str(), static_cast<ParserBuilder*>(&tb), nx);
         } catch (std::exception& ex) {
             std::cout << "TRACE-EXCEPTION " << vh::quote(ex.what()) << "\n";
         }
@@ -252,8 +254,9 @@ void opParse(const std::string& op, const std::string& text)
     }
     Document doc;
     try {
-        if (op == "xml") parse_XML_buffer(text.c_str(), &doc, true);
-        else parse_XTA(text.c_str(), &doc, true);
+        const bool nx = op != "xml0" && op != "xta0";
+        if (op == "xml" || op == "xml0") parse_XML_buffer(text.c_str(), &doc, nx);
+        else parse_XTA(text.c_str(), &doc, nx);
     } catch (std::exception& ex) {
         std::cout << "EXCEPTION " << vh::quote(ex.what()) << "\n";
     }
@@ -415,7 +418,7 @@ int main(int argc, char** argv)
         std::cin.read(&text[0], n);
         std::cin.get();
         std::cout << "BEGIN " << id << " " << op << "\n";
-        if (op == "xml" || op == "xta") opParse(op, text);
+        if (op == "xml" || op == "xta" || op == "xml0" || op == "xta0") opParse(op, text);
         else if (op == "write" || op == "writeL") {
             // the writer is known to crash on some documents: run it in a child so that one crash costs one case
             std::cout.flush();
